@@ -10,7 +10,9 @@ PAYLOADS = [
     b'{"n": 1}',
 ]
 TIPS = [b'A', b'PING']
-DELAYS = [0.0, 0.5, 1.0, 1.0, 2.5]
+# delays include pairs that differ in the last bits only (1.0 vs 1.0 + 5e-10, 0.1 + 0.2 vs 0.3) and a huge one:
+# the order of delays must be the exact order of the floating-point values
+DELAYS = [0.0, 0.5, 1.0, 1.0, 2.5, 1.0 + 5e-10, 0.1 + 0.2, 0.3, 1e300]
 
 
 def bstr(b):
@@ -39,7 +41,7 @@ def gen_timer_scenario(rng, sid):
         r = rng.random()
         if r < 0.50:
             lines.append("PUSHTIMER %d %d %d" % (rng.randrange(nproc), rng.randrange(nnames),
-                                                f64_bits(rng.choice([0.5, 1.0, 1.0, 2.0, 3.0]))))
+                                                f64_bits(rng.choice([0.5, 1.0, 1.0, 2.0, 3.0, 1.0 + 5e-10, 1.0 - 2e-16]))))
         elif r < 0.70:
             lines.append("CANCELTIMER %d %d" % (rng.randrange(nproc), rng.randrange(nnames)))
         elif r < 0.90:
